@@ -28,7 +28,7 @@ import copy
 
 from ..consts import Folder, Unknown
 from ..model import DEX, DEX_TYPES, AnalysisError, Module, Repo, norm
-from ..sstr import Atom, Garbled, SStr, StringEval, Sym, Raised, IDENT_CHARS
+from ..sstr import Atom, Garbled, SStr, StringEval, Sym, Raised, IDENT_CHARS, NeedConcrete
 
 UTIL = "androguard/decompiler/util.py"
 
@@ -37,6 +37,40 @@ PRIMITIVES = {"V": "void", "Z": "boolean", "B": "byte", "S": "short", "C": "char
               "I": "int", "J": "long", "F": "float", "D": "double"}
 
 NAME, PKG, SUB = Atom("Name"), Atom("pkg"), Atom("sub")
+
+
+# DEX format, "SimpleName": SimpleNameChar = A-Z | a-z | 0-9 | '$' | '-' | '_' | U+00a1..U+1fff | U+2010..U+2027 | U+2030..U+d7ff | ...
+# One representative name per cell of that alphabet (used when an operation -- a regular expression -- has no abstract
+# meaning on a name of unknown text: it is then decided on these members of the class).
+NAME_PROBES = {
+    "Name": ["Foo", "Outer$Inner", "-$$Lambda$Main$x1A", "Iface$-CC", "snake_case9", "\u00dcn\u00efcode", "\u03c0"],
+    "pkg": ["com", "my-pkg", "x_1", "\u00e9t\u00e9"],
+    "sub": ["util", "a-b", "v2$x"],
+}
+
+
+def probe_instantiations(parts_list):
+    """name assignments for the atoms occurring in the given templates: every representative of every atom once, the other
+    atoms at their first representative"""
+    atoms = []
+    for sx in parts_list:
+        for p in sx.parts:
+            if isinstance(p, Atom) and p.name not in atoms:
+                atoms.append(p.name)
+    if not atoms:
+        return [{}]
+    base = {a: NAME_PROBES[a][0] for a in atoms}
+    out = [dict(base)]
+    for a in atoms:
+        for alt in NAME_PROBES[a][1:]:
+            d = dict(base)
+            d[a] = alt
+            out.append(d)
+    return out
+
+
+def concretized(sx, names):
+    return SStr([sx.concretize(names)])
 
 
 class Tmpl:
@@ -179,14 +213,37 @@ def strip_witness(tmpl, charset, into):
     return tmpl.witness(names)
 
 
-def evaluate(repo, folder, func, tmpl, size=None, strip_as_prefix=False):
+def evaluate(repo, folder, func, tmpl, size=None, strip_as_prefix=False, desc=None):
     ev = StringEval(repo, folder, func, strip_as_prefix=strip_as_prefix)
-    args = [tmpl.desc] + ([size] if size is not None else [])
+    args = [desc if desc is not None else tmpl.desc] + ([size] if size is not None else [])
     try:
         out = ev.call(args)
     except Raised as r:
         return ev, ("raised", r.node)
+    finally:
+        EVALUATED.extend(f for f in ev.called if f not in EVALUATED)
     return ev, out
+
+
+EVALUATED = []   # repository functions the abstract evaluator entered (reported with ctx.analysed)
+
+
+def check_on_representatives(repo, folder, sink, func, label, tmpl, inst):
+    """the function uses an operation without abstract meaning on unknown names: decide this class on representative members"""
+    n = 0
+    for names in probe_instantiations([tmpl.desc]):
+        n += 1
+        desc = concretized(tmpl.desc, names)
+        accept = [concretized(a, names) for a in tmpl.accept]
+        ev, out = evaluate(repo, folder, func, tmpl, desc=desc)
+        ok = isinstance(out, SStr) and any(out == a for a in accept)
+        prod = ev.producer if isinstance(ev.producer, ast.AST) else func.name
+        sink.check("render", "%s [%s]" % (inst, desc), ok, func, prod,
+                   "%s renders the %s descriptor `%s` as %s instead of %s (%s)"
+                   % (label, tmpl.label, desc, _show_out(out, tmpl), " or ".join(repr(str(a)) for a in accept), tmpl.clause),
+                   node=prod if isinstance(prod, ast.AST) else None, detail="%s -> %r" % (desc, out),
+                   witness=dict(input=str(desc), expected=[str(a) for a in accept]))
+    return n
 
 
 def check_function(repo, folder, sink, func, label):
@@ -201,7 +258,12 @@ def check_function(repo, folder, sink, func, label):
     for tmpl in prims + classes + arrays:
         n_eval += 1
         inst = "%s: %s %r" % (label, tmpl.label, tmpl.desc)
-        ev, out = evaluate(repo, folder, func, tmpl)
+        try:
+            ev, out = evaluate(repo, folder, func, tmpl)
+        except NeedConcrete:
+            check_on_representatives(repo, folder, sink, func, label, tmpl, inst)
+            sink.count("representative_classes")
+            continue
         ok = isinstance(out, SStr) and any(out == a for a in tmpl.accept)
         wdesc, wacc = tmpl.witness()
         detail = "%r -> %r" % (tmpl.desc, out)
@@ -274,7 +336,10 @@ def check_function(repo, folder, sink, func, label):
             inst = "%s: sized %s %r" % (label, tmpl.label, tmpl.desc)
             if tmpl.label in failed_labels or tmpl.base.label in failed_labels:
                 continue  # reported through the unsized run
-            ev, out = evaluate(repo, folder, func, tmpl, size=size)
+            try:
+                ev, out = evaluate(repo, folder, func, tmpl, size=size)
+            except NeedConcrete:
+                continue   # decided on representatives in the unsized run
             good = False
             if isinstance(out, SStr):
                 for a in tmpl.base.accept:
@@ -337,6 +402,69 @@ def check_tables(repo, folder, sink):
                        node=m.assigns["TYPE_DESCRIPTOR"], detail="%r -> %r" % (k, got))
 
 
+def param_list_templates():
+    P = lambda *parts: SStr(parts)
+    cls = P("L", PKG, "/", NAME, ";")
+    lists = [
+        ("no parameter", []),
+        ("one primitive", [P("I")]),
+        ("two primitives", [P("I"), P("J")]),
+        ("every primitive", [P(k) for k in "ZBSCIJFD"]),
+        ("one class", [cls]),
+        ("class in the default package", [P("L", NAME, ";")]),
+        ("primitive, class, array", [P("I"), cls, P("[J")]),
+        ("arrays of classes and a java.lang member", [P("[[L", NAME, ";"), P("Ljava/lang/", NAME, ";"), P("[L", PKG, "/", SUB, "/", NAME, ";")]),
+        ("class between primitives", [P("Z"), cls, P("D")]),
+    ]
+    out = []
+    for label, params in lists:
+        inner = []
+        for i, x in enumerate(params):
+            if i:
+                inner.append(" ")
+            inner.append(x)
+        for ret_label, ret in (("parameter part only", []), ("with return type V", ["V"]), ("with a class return type", [P("L", PKG, "/", NAME, ";")])):
+            out.append(("%s, %s" % (label, ret_label), SStr(["("] + inner + [")"] + ret), params))
+    return out
+
+
+def check_params_function(repo, folder, sink, func, label):
+    """get_params_type cuts a prototype '(' + ' '.join(parameter descriptors) + ')' [+ return type] (the form
+    ProtoIdItem.get_parameters_off_value builds) into exactly its parameter descriptors"""
+    sink.analysed(func)
+    n = 0
+    for tlabel, proto, params in param_list_templates():
+        inst = "%s: %s %r" % (label, tlabel, proto)
+
+        def one(desc, expected, where):
+            ev = StringEval(repo, folder, func)
+            try:
+                out = ev.call([desc])
+            except Raised as r:
+                out = ("raised", r.node)
+            finally:
+                EVALUATED.extend(f for f in ev.called if f not in EVALUATED)
+            ok = isinstance(out, (list, tuple)) and list(out) == list(expected)
+            prod = ev.producer if isinstance(ev.producer, ast.AST) else func.name
+            if isinstance(out, (list, tuple)) and any(isinstance(x, SStr) and x.garbled() for x in out):
+                prod = next((e[1] for e in reversed(ev.events) if e[0] in ("cut", "strip")), prod)
+            shown = "an exception" if isinstance(out, tuple) and out and out[0] == "raised" else repr([str(x) for x in out] if isinstance(out, (list, tuple)) else out)
+            sink.check("parameter-list", inst + where, ok, func, prod,
+                       "%s cuts the prototype `%s` (%s) into %s instead of %s"
+                       % (label, desc, tlabel, shown, [str(x) for x in expected]),
+                       node=prod if isinstance(prod, ast.AST) else None, detail="%s -> %s" % (desc, shown),
+                       witness=dict(input=str(desc), expected=[str(x) for x in expected]))
+
+        n += 1
+        try:
+            one(proto, params, "")
+        except NeedConcrete:
+            sink.count("representative_classes")
+            for names in probe_instantiations([proto]):
+                one(concretized(proto, names), [concretized(x, names) for x in params], " [%s]" % concretized(proto, names))
+    return n
+
+
 def core(repo, sink):
     folder = Folder(repo)
     util = repo.mod(UTIL)
@@ -351,6 +479,10 @@ def core(repo, sink):
         sink.count("functions")
         total += check_function(repo, folder, sink, f, label)
     sink.count("templates", total)
+    gp = util.functions.get("get_params_type")
+    if gp is None:
+        raise AnalysisError("anchor vanished: get_params_type in %s" % util.relpath)
+    sink.count("prototypes", check_params_function(repo, folder, sink, gp, "decompiler.util.get_params_type"))
 
 
 def run(ctx):
@@ -358,10 +490,14 @@ def run(ctx):
     sink = Sink(ctx)
     for rel in (UTIL, DEX, DEX_TYPES):
         ctx.mod(rel)
+    del EVALUATED[:]
     core(ctx.repo, sink)
+    for f in EVALUATED:
+        ctx.analysed(f)
     ctx.floor("functions", 2)
     ctx.floor("tables", 2)
     ctx.floor("templates", 2 * (9 + 9 + 10 + 10))
+    ctx.floor("prototypes", 27)
     ctx.assume("inputs are TypeDescriptors of the DEX format; <Name>, <pkg>, <sub> stand for identifiers that do not themselves spell a "
                "literal the code compares with")
     ctx.note("keeping the java.lang. prefix of a direct member (dex.get_type) is accepted: the fully qualified name is a right Java name")
@@ -531,6 +667,33 @@ def mutants():
                 return True
         return False
     out.append(("dex: the lookup key is lstrip('IJ')-ed (int and long lose their letter)", DEX, dex_strip_mut))
+
+    def _params(tree):
+        for n in tree.body:
+            if isinstance(n, ast.FunctionDef) and n.name == "get_params_type":
+                return n
+        return None
+
+    def params_slice(tree):
+        f = _params(tree)
+        if f is None:
+            return False
+        for n in ast.walk(f):
+            if isinstance(n, ast.Subscript) and isinstance(n.slice, ast.Slice) and isinstance(n.slice.lower, ast.Constant) and n.slice.lower.value == 1:
+                n.slice.lower = ast.Constant(2)
+                return True
+        return False
+    out.append(("util.get_params_type drops two leading characters", UTIL, params_slice))
+
+    def params_regex(tree):
+        f = _params(tree)
+        if f is None:
+            return False
+        tree.body.insert(tree.body.index(f), ast.parse("import re\nAGSTATIC_PARAM = re.compile(r'\\[*(?:[ZBSCIJFD]|L[\\w$/]+;)')").body[1])
+        tree.body.insert(0, ast.parse("import re").body[0])
+        f.body = ast.parse("def f(descriptor):\n    return AGSTATIC_PARAM.findall(descriptor.split(')')[0][1:])\n").body[0].body
+        return True
+    out.append(("util.get_params_type tokenises with a regex whose class names are [\\w$/]+", UTIL, params_regex))
     return out
 
 
@@ -590,6 +753,16 @@ def benign():
                 return True
         return False
     out.append(("dex: `size is None` branches swapped with the negated test", DEX, swap_branches))
+
+    def params_regex_ok(tree):
+        for n in tree.body:
+            if isinstance(n, ast.FunctionDef) and n.name == "get_params_type":
+                tree.body.insert(tree.body.index(n), ast.parse("import re\nAGSTATIC_PARAM = re.compile(r'\\[*(?:[ZBSCIJFD]|L[^;]+;)')").body[1])
+                tree.body.insert(0, ast.parse("import re").body[0])
+                n.body = ast.parse("def f(descriptor):\n    return AGSTATIC_PARAM.findall(descriptor.split(')')[0][1:])\n").body[0].body
+                return True
+        return False
+    out.append(("util.get_params_type tokenises with a regex whose class names are [^;]+", UTIL, params_regex_ok))
     return out
 
 
